@@ -292,7 +292,7 @@ theorem SG_cacheTail {g : Name → Option Node} {sg : Option (Name × Cid)} {t1 
   have h42 := h24.symm
   have h43 := h34.symm
   unfold cacheTail
-  refine SG_advertise hx.good hx.e1 m1 hx.n1 ?_
+  refine SG_mark _ (SG_advertise hx.good hx.e1 m1 hx.n1 ?_)
   intro g7 good7 p71 keep7 pres7 nl7
   refine SG_mark _ ?_
   -- the rest after the optional signature advertise, from any directory that kept what matters
@@ -360,7 +360,7 @@ theorem SG_pkgExpand {g : Name → Option Node} {sg : Option (Name × Cid)} {t1 
     refine SG_finish (c := k3) (b := false) (by simp [updG]) ?_
     refine SG_finish (c := k2) (b := false) (by simp [updG, h23, h21]) (SG_mark _ ?_)
     refine SG_read (c := k1) (by simp [resolveG, updG, h12, h13]) ?_
-    refine SG_read (c := k3) (by simp [resolveG, updG, h32, h31]) (SG_mark _ ?_)
+    refine SG_read (c := k3) (by simp [resolveG, updG, h32, h31]) ?_
     generalize hg6 : updG (updG (updG (updG (updG (updG g t1 (some (.file k1 false))) t1 (some (.file k1 true)))
       t2 (some (.file k2 false))) t3 (some (.file k3 false))) t3 (some (.file k3 true)))
       t2 (some (.file k2 true)) = g6
@@ -399,7 +399,7 @@ theorem SG_pkgExpand {g : Name → Option Node} {sg : Option (Name × Cid)} {t1 
     refine SG_finish (c := k3) (b := false) (by simp [updG]) ?_
     refine SG_finish (c := k2) (b := false) (by simp [updG, h23, h21]) (SG_mark _ ?_)
     refine SG_read (c := k1) (by simp [resolveG, updG, h12, h13]) ?_
-    refine SG_read (c := k3) (by simp [resolveG, updG, h32, h31]) (SG_mark _ ?_)
+    refine SG_read (c := k3) (by simp [resolveG, updG, h32, h31]) ?_
     generalize hg6 : updG (updG (updG (updG (updG (updG (updG (updG g t0 (some (.file k0 false)))
       t0 (some (.file k0 true))) t1 (some (.file k1 false))) t1 (some (.file k1 true)))
       t2 (some (.file k2 false))) t3 (some (.file k3 false))) t3 (some (.file k3 true)))
